@@ -378,7 +378,8 @@ class Family:
         (AFI.ipv6, SAFI.flow_ip): ((0, 16, 32), 0),
         (AFI.ipv6, SAFI.flow_vpn): ((0, 16, 32), 0),
         (AFI.l2vpn, SAFI.vpls): ((4,), 0),
-        (AFI.l2vpn, SAFI.evpn): ((4,), 0),
+        # RFC 7432 section 9: the next hop of an EVPN route is the IPv4 or the IPv6 address of the PE
+        (AFI.l2vpn, SAFI.evpn): ((4, 16), 0),
         (AFI.bgpls, SAFI.bgp_ls): ((4, 16), 0),
         # RFC 7752 section 3.2.1: for the VPN SAFI the next hop is a VPN-IPv4 or VPN-IPv6
         # address with the route distinguisher set to zero, which is the shape the mpls-vpn
